@@ -53,3 +53,21 @@ func ZVEncodeObjectIdentifier(oid []int) ([]byte, error) {
 	}
 	return encodeAll(e), nil
 }
+
+// --- string types (C19, fourth wave): strict-mode character-set checks of decoder and encoder ---
+
+func ZVParseNumericString(b []byte) (string, error)   { return parseNumericString(b) }
+func ZVParsePrintableString(b []byte) (string, error) { return parsePrintableString(b) }
+func ZVParseIA5String(b []byte) (string, error)       { return parseIA5String(b) }
+func ZVParseT61String(b []byte) (string, error)       { return parseT61String(b) }
+
+func encodeOrErr(e encoder, err error) ([]byte, error) {
+	if err != nil {
+		return nil, err
+	}
+	return encodeAll(e), nil
+}
+
+func ZVMakeNumericString(s string) ([]byte, error)   { return encodeOrErr(makeNumericString(s)) }
+func ZVMakePrintableString(s string) ([]byte, error) { return encodeOrErr(makePrintableString(s)) }
+func ZVMakeIA5String(s string) ([]byte, error)       { return encodeOrErr(makeIA5String(s)) }
